@@ -24,6 +24,7 @@ import r32_virial
 import r33_axispair
 import r34_weights
 import r35_residual
+import r36_zerodensity
 import r06_validate
 import r07_cache
 import r08_toporder
@@ -151,6 +152,10 @@ R31_SCOPES = {
 
 def r31(ctx, prop):
     return r31_reject.run(ctx.F(), R31_SCOPES[prop])
+
+
+def r36(ctx, prop):
+    return r36_zerodensity.run(ctx.F())
 
 
 def r35(ctx, prop):
@@ -314,6 +319,20 @@ def r10_selector(ctx, prop):
     return r10_fwd.run(ctx.F(), ("selector",))
 
 
+R10F_SCOPES = {
+    "C10": None,
+    "C04": ("phase_equilibria::vle_pure", "phase_equilibria::phase_diagram_pure"),
+    "C05": ("phase_equilibria::tp_flash", "phase_equilibria::bubble_dew", "phase_equilibria::phase_diagram_binary",
+            "phase_equilibria::phase_envelope", "phase_equilibria::PhaseEquilibrium"),
+    "C07": ("phase_equilibria::stability_analysis",),
+    "C20": ("estimator::", "state::residual_properties"),
+}
+
+
+def r10_selconst(ctx, prop):
+    return r10_fwd.run(ctx.F(), ("selector_constants",), R10F_SCOPES[prop])
+
+
 def r10_identifier(ctx, prop):
     return r10_fwd.run(ctx.F(), ("identifier",))
 
@@ -342,19 +361,19 @@ PROPERTY_RULES = {
     "C08": [r10_wrapper, r11, r2, r20, r21, r25, r27],
     "C09": [r12, r18, r20, r10_wrapper, r30],
     "C02": [r3, r7],
-    "C10": [r10_selector, r8, r1_idealgas, r3, r19, r25, r29],
+    "C10": [r10_selector, r8, r1_idealgas, r3, r19, r25, r29, r10_selconst],
     "C14": [r14, r13, r10_identifier, r21, r27, r28],
     "C15": [r15],
-    "C20": [r10_transport, r21, r25, r24, r34],
+    "C20": [r10_transport, r21, r25, r24, r34, r10_selconst],
     "C01": [r1_all, r2, r7, r8, r4, r25, r24, r26, r28, r29],
-    "C13": [r1_guard, r8, r21, r32],
+    "C13": [r1_guard, r8, r21, r32, r36],
     "C17": [r1_functional, r8, r22, r25, r21, r26, r28, r33],
     "C11": [r9, r7],
     "C03": [r6, r17, r4, r5, r25, r24, r26, r31],
-    "C04": [r4, r16, r25, r24, r26, r31],
-    "C05": [r4, r5, r16, r25, r24, r26, r31],
+    "C04": [r4, r16, r25, r24, r26, r31, r10_selconst],
+    "C05": [r4, r5, r16, r25, r24, r26, r31, r10_selconst],
     "C06": [r4, r1_all, r21, r25, r24, r26, r28, r31],
-    "C07": [r5, r4, r25, r24, r26, r31],
+    "C07": [r5, r4, r25, r24, r26, r31, r10_selconst],
     "C18": [r4, r16, r25, r24, r26, r35],
 }
 
